@@ -2,6 +2,7 @@ pub mod c01;
 pub mod c02;
 pub mod c03;
 pub mod c05;
+pub mod c06;
 pub mod c07;
 pub mod c08;
 pub mod c09;
@@ -16,6 +17,7 @@ pub fn build(id: &str, tier: &str, _seed: u64) -> Option<Box<dyn Space + Sync + 
         "C02" => Box::new(c02::C02::new(tier)),
         "C03" => Box::new(c03::C03::new(tier)),
         "C05" => Box::new(c05::C05::new(tier)),
+        "C06" => Box::new(c06::C06::new(tier)),
         "C07" => Box::new(c07::C07::new(tier)),
         "C08" => Box::new(c08::C08::new(tier)),
         "C09" => Box::new(c09::C09::new(tier)),
